@@ -206,7 +206,7 @@ SUBS = [
     Sub(name='fuzz-jumps', kind='fuzz', run=run, target='jumps',
         rule='thorough tier only: atheris (libFuzzer) coverage-guided campaign on the Python-level classifier with the property oracle inside the target; bytes are decoded into a structured case; empty and seeded corpus shards; non-trivial counted but not de-duplicated',
         n={'quick': 0, 'thorough': 60000}, shards={'quick': 1, 'thorough': 16}),
-    Sub(name='long-pipeline', kind='hyp', run=run_long_jumps, strategy=c03.long_cases,
+    Sub(name='long-pipeline', kind='hyp', shrink=False, run=run_long_jumps, strategy=c03.long_cases,
         rule='trajectories of 33 000 - 70 000 (140 000) frames through transitions_between_sites and Jumps: every reported jump is a default jump of the planned history and consistent with the states',
         n={'quick': 2, 'thorough': 12}, shards={'quick': 6, 'thorough': 16}),
 ]
